@@ -781,6 +781,9 @@ class C10(Prop):
 
     def gen(self, ctx):
         rng = ctx.rng
+        # the witness of known finding K2, every run
+        for t in (b"http://[::FFFF:1.2.3.4]/", b"http://[FE80::1]/x"):
+            ctx.add("genreq", ["d", "d", "d", hx(b"GET"), hx(t), hdrs_spec([]), hx(b"")], target=t, wf=True)
         for _ in range(ctx.n(600, 6000)):
             meth, target, hs, body = wf_request_value(rng)
             ctx.add("genreq", ["d", "d", "d", hx(meth), hx(target), hdrs_spec(hs), hx(body)], target=target, wf=True)
@@ -824,6 +827,10 @@ class C11(Prop):
 
     def gen(self, ctx):
         rng = ctx.rng
+        # the witnesses of known findings K2 and K3, every run
+        for t in (b"http://[::FFFF:1.2.3.4]/", b"/%", b"/%4", b"/%/x"):
+            s = b"GET " + t + b" HTTP/1.1\r\n\r\n"
+            ctx.add("rtreq", ["d", "d", "d", hx(s)], stream=s)
         for s, meta in req_streams(ctx, ctx.n(800, 8000), p_odd=0.05, mutate_frac=0.3):
             ctx.add("rtreq", ["d", "d", "d", hx(s)], stream=s)
         for s, meta in resp_streams(ctx, ctx.n(800, 8000), p_odd=0.05, mutate_frac=0.3):
